@@ -97,11 +97,11 @@ def base_inputs(ctx, soup_n, trunc_n=0, lf_n=0, mb_n=0, case_n=0, corpus_trunc=0
     # families do not contain the construct (DESIGN.md section 12, corrections 18, 22)
     cn = COMMON_N[ctx.tier]
     ctx.add_cases("common:deep_family", gen.deep_family(rng, cn // 10))
-    for fam in ("string_family", "num_family", "sep_family", "multiline_family", "err_family"):
+    for fam in ("string_family", "num_family", "sep_family", "multiline_family", "err_family", "dl_family"):
         if fam == "num_family":
             ctx.add_cases("common:" + fam, gen.num_family(rng, cn, exhaustive_len=1))
         else:
-            ctx.add_cases("common:" + fam, getattr(gen, fam)(rng, cn)[-cn:] if fam == "err_family" else getattr(gen, fam)(rng, cn))
+            ctx.add_cases("common:" + fam, getattr(gen, fam)(rng, cn)[-cn:] if fam == "err_family" else getattr(gen, fam)(rng, cn // 2 if fam == "dl_family" else cn))
     ctx.add_cases("common:oc_family", rng.sample(gen.oc_family(rng, 2 * cn, exh_small=2), cn))
     if not mb_n:
         ctx.add_cases("common:mb", [gen.multibyte_inject(s, rng) for s in rng.sample(pool, min(len(pool), cn))])
